@@ -7,6 +7,7 @@ import (
 	"testing"
 
 	"github.com/dolthub/go-mysql-server/vh/internal/fx"
+	"github.com/dolthub/go-mysql-server/vh/internal/kf"
 	"github.com/dolthub/go-mysql-server/vh/internal/stats"
 	"pgregory.net/rapid"
 )
@@ -191,9 +192,10 @@ func TestC33(t *testing.T) {
 		}
 		// (for patterns that can match the empty string this is still model-free: the reported
 		// matches and the substituted ones come from the same engine)
-		if n == 0 && nullable {
-			// region of finding C33-replace-empty-subject: the empty match in an empty subject is not substituted
-			st.Excluded("C33-replace-empty-subject")
+		if n == 0 && nullable && kf.Listed(kfReplaceEmpty) {
+			// region of finding C33-replace-empty-subject: the empty match in an empty subject is not
+			// substituted. Excluded only while the finding is listed; otherwise the clause is checked.
+			st.Excluded(kfReplaceEmpty)
 		} else {
 			checkReplace(got, complete, "reported")
 			if iShort >= 0 && pos == 1 && complete {
